@@ -73,7 +73,7 @@ def _tensor(points, S):
     return torch.tensor([complex(x / S, y / S) for x, y in points], dtype=torch.complex64)
 
 
-def _call(inst, name, points, S, nv=None, per_symbol=False):
+def _call(inst, name, points, S, nv=None, per_symbol=False, tensor_nv=False):
     """returns the implementation's outputs per point: list of bit strings (hard) or list of float lists (soft)"""
     import torch
     dem = inst.demod
@@ -86,7 +86,7 @@ def _call(inst, name, points, S, nv=None, per_symbol=False):
         if inst.kind == "dpsk":
             for (x, y) in points:
                 yv = torch.tensor([[1 + 0j, complex(x / S, y / S)]], dtype=torch.complex64)
-                o = dem(yv) if nv is None else dem(yv, noise_var=float(nv))
+                o = dem(yv) if nv is None else dem(yv, noise_var=(torch.tensor([[float(nv)]]) if tensor_nv else float(nv)))
                 res.append(o.reshape(-1).tolist())
             return res
         if inst.kind == "pi4":
@@ -95,13 +95,13 @@ def _call(inst, name, points, S, nv=None, per_symbol=False):
                 seq = [complex(1, 0), complex(x / S, y / S)] if second else [complex(x / S, y / S)]
                 yv = torch.tensor([seq], dtype=torch.complex64)
                 dem.reset_state()
-                o = dem(yv) if nv is None else dem(yv, noise_var=float(nv))
+                o = dem(yv) if nv is None else dem(yv, noise_var=(torch.full((1, len(seq)), float(nv)) if tensor_nv else float(nv)))
                 o = o.reshape(-1).tolist()
                 res.append(o[-b:])
             return res
         yv = _tensor(points, S)
         if inst.kind in ("bpsk",):
-            o = dem(yv) if nv is None else dem(yv, noise_var=float(nv))
+            o = dem(yv) if nv is None else dem(yv, noise_var=(torch.full((len(points),), float(nv)) if tensor_nv else float(nv)))
         elif per_symbol:
             nvt = torch.tensor([float(nv[i % len(nv)]) for i in range(len(points))], dtype=torch.float32)
             o = dem(yv, noise_var=nvt)
@@ -158,8 +158,15 @@ def corr(ctx):
         c = C_CONST[inst.kind]
         nvs = NVS if ctx.thorough else NVS[::2] + [NVS[1]]
         sub = points if ctx.thorough or len(pts) <= 16 else points[: max(10, len(points) // 3)]
-        for nv in nvs:
-            soft = _call(inst, name, sub, S, nv=nv)
+        # the same variance passed as a float and (dpsk / pi4 / bpsk) as a per-symbol tensor
+        plan = [(nv, False) for nv in nvs] + ([(nvs[1], True)] if inst.kind in ("dpsk", "pi4", "bpsk") else [])
+        for nv, as_tensor in plan:
+            try:
+                soft = _call(inst, name, sub, S, nv=nv, tensor_nv=as_tensor)
+            except Exception as e:
+                ops.append(Op("hard %s 0,0" % tname, "other:tensor-noise-var:%s" % type(e).__name__, info={"site": site_s, "config": dict(cfg, nv="tensor:" + str(nv))}, prop_ok=False))
+                continue
+            nvtag = ("tensor:" if as_tensor else "") + str(nv)
             if inst.kind == "dpsk":
                 # the demodulator normalises the decision variable to unit modulus (a square root): outside the exact
                 # model - compared with a float64 evaluation of the definition instead (a test of the implementation)
@@ -174,7 +181,7 @@ def corr(ctx):
                     tols = [3e-4 * abs(w) + 2e-5 / float(nv) for w in want]
                     close = len(row) == len(want) and all(abs(float(v) - w) <= t for v, w, t in zip(row, want, tols))
                     best = oracle(P, b, x, y)[0]
-                    ops.append(Op("nearest %s %d,%d" % (tname, x, y), str(best), info={"site": site_s, "config": dict(cfg, point=[x, y], nv=str(nv), want=want)},
+                    ops.append(Op("nearest %s %d,%d" % (tname, x, y), str(best), info={"site": site_s, "config": dict(cfg, point=[x, y], nv=nvtag, want=want)},
                                   prop_ok=close))
                     if not close:
                         ops[-1].impl = str(best)
@@ -191,7 +198,7 @@ def corr(ctx):
                 sign_ok = all(not ((w > 10 * t and v < -10 * t) or (w < -10 * t and v > 10 * t)) for w, v, t in zip(want, row, tols))
                 close = len(row) == len(want) and all(abs(float(v) - w) <= t for v, w, t in zip(row, want, tols))
                 ops.append(Op("llr %s %s %d %s %d,%d" % (tname, c, S * S, nv, x, y), impl, cmp=_cmp_llr(tols),
-                              info={"site": site_s, "config": dict(cfg, point=[x, y], nv=str(nv), want=want)}, prop_ok=(sign_ok and close)))
+                              info={"site": site_s, "config": dict(cfg, point=[x, y], nv=nvtag, want=want)}, prop_ok=(sign_ok and close)))
             ctx.count("soft_" + inst.kind, len(sub))
         # per-symbol variances (memoryless tensor paths)
         if inst.kind in ("qpsk", "psk", "qam", "pam", "oqpsk"):
